@@ -137,7 +137,7 @@ theorem C07_partial_all_shapes (r : Row) (hr : r ∈ Generated.ruleRows)
   have hd := C07_partial r hr hguard
   unfold rowDefects at hd
   simp only [hnr, hexp, Bool.false_eq_true, if_false, List.append_eq_nil_iff] at hd
-  obtain ⟨hz, _⟩ := hd
+  obtain ⟨⟨hz, _⟩, _⟩ := hd
   by_cases ht : r.tailRepeats = true
   · simp [ht] at hz
   · simp only [ht] at hz
@@ -167,6 +167,30 @@ theorem labelled_leaf_covariant {K : Type} [Lean.Grind.Field K] [RPow K] (P : K 
     ∃ s s', leaf.scale u env = some s ∧ leaf.scale u' env = some s' ∧ s' * x' = s * x := by
   refine ⟨labelScale u d, labelScale u' d, by simp [Leaf.scale, hd], by simp [Leaf.scale, hd], ?_⟩
   exact degree_rule_covariant P laws u u' lam d x x' hpos hconv hhom
+
+/-- every regenerated label has the scale of the product of the operand scales also when the operand
+    units cancel across groups with a numeric coefficient (`kappa = 1`: no handler simplifies the unit of
+    its result without applying the simplification coefficient to the numbers; not excludable) -/
+theorem labels_apply_coefficient :
+    (Generated.ruleRows.all fun r => r.raised || kappaDefects r == []) = true
+    ∧ (Ref.exclC07.all fun e => !e.2.startsWith "coefficient") = true := by
+  decide +kernel
+
+/-- … and why that is required: if the attached unit's scale is `kap · Π u_g^{d_g}` with a factor `kap`
+    that depends on how the operands are written (`kap ≠ kap'`), the SI magnitude of a covariant,
+    non-zero result changes under re-expression -/
+theorem dropped_coefficient_breaks_covariance {K : Type} [Lean.Grind.Field K]
+    (kap kap' L L' x x' : K) (hcov : L' * x' = L * x) (hne : L * x ≠ 0) (hk : kap ≠ kap') :
+    (kap' * L') * x' ≠ (kap * L) * x := by
+  intro h
+  have h1 : kap' * (L * x) = kap * (L * x) := by rw [← hcov]; grind
+  have h2 : (kap' - kap) * (L * x) = 0 := by grind
+  have h3 : kap' - kap = 0 := by
+    have := Lean.Grind.Field.mul_inv_cancel hne
+    have h4 : (kap' - kap) * ((L * x) * (L * x)⁻¹) = 0 := by
+      rw [← Lean.Grind.Semiring.mul_assoc, h2]; grind
+    rw [this] at h4; grind
+  exact hk (by grind)
 
 /-- unyt violates the full statement on the unchanged tree -/
 theorem C07_counterexample : ¬ C07_full := by
